@@ -67,7 +67,7 @@ func main() {
 		h.model = m
 		defer m.Close()
 	}
-	run.SetRule("served: every multiset of ≤3 (thorough ≤4) edges over the timestamps {t, t+1ns, t+1s(, t+2s)} with unique ids in seeded order × atOrAfterTime,beforeTime ∈ {absent} ∪ 4 instants × after,before ∈ {absent} ∪ cursors(D) ∪ 4 foreign cursors (an edge's instant with another id, before everything, an instant no edge carries — inside and outside the window) × first|last ∈ 0..|D|+1, getter tie-break ∈ {id, reverse-id, seeded}, delivery ∈ {sync, promise, mixed} and empty-range representation ∈ {empty slice, typed nil, untyped nil} seeded; walks for every page size × time window; the same over ≤2 edges on instants at both ends of the int64 nanosecond range; getter replies as fresh slices or (1 in 4) as windows of its own long-lived []any store, followed by a request for everything on that store; TimeBasedRangeQueries directly over cursors × windows × limits; random larger data sets. distinct = distinct canonical case; non-trivial = the data set has a repeated timestamp and TimeRef's page is a non-empty proper part of it (served), the walk needs more than one page, a cursor is given (queries)")
+	run.SetRule("served: every multiset of ≤3 (thorough ≤4) edges over the timestamps {t, t+1ns, t+1s(, t+2s)} with unique ids in seeded order × atOrAfterTime,beforeTime ∈ {absent} ∪ 4 instants × after,before ∈ {absent} ∪ cursors(D) ∪ 4 foreign cursors (an edge's instant with another id, before everything, an instant no edge carries — inside and outside the window) × first|last ∈ 0..|D|+1, getter tie-break ∈ {id, reverse-id, seeded}, delivery ∈ {sync, promise, mixed} and empty-range representation ∈ {empty slice, typed nil, untyped nil} seeded; walks for every page size × time window; the same over ≤2 edges on instants at both ends of the int64 nanosecond range; getter replies as fresh slices or (1 in 4) as windows of its own long-lived []any store, followed by a request for everything on that store; TimeBasedRangeQueries directly over cursors × windows × limits; far-away time bounds (years 1, 1000, 2500, 9999: outside the int64 nanosecond range) × cursors × counts; random larger data sets. distinct = distinct canonical case; non-trivial = the data set has a repeated timestamp and TimeRef's page is a non-empty proper part of it (served), the walk needs more than one page, a cursor is given (queries)")
 
 	if run.Replay != "" {
 		var c Case
@@ -234,6 +234,50 @@ func main() {
 	for _, fl := range [][2]*int{{nil, nil}, {ip(-1), nil}, {nil, ip(-2)}, {ip(1), ip(1)}, {ip(0), ip(0)}} {
 		r := TReq{First: fl[0], Last: fl[1], SelPI: true, AtOrAfter: i64(times[0])}
 		h.add(Case{Kind: "served", D: D3, Tie: "id", Async: hx.Pick(R, asyncs), Empty: hx.Pick(R, emptyNames), ReplyAs: replyAs(R), Seed: R.Uint64() >> 1, Req: &r})
+	}
+
+	// ---- far-away time bounds (outside the int64 nanosecond range): a lower bound in the year 1000
+	// and an upper bound in 9999 constrain nothing, the other way round they exclude everything
+	farTexts := []string{"", "1000-01-01T00:00:00Z", "9999-12-31T23:59:59Z", "0001-01-01T00:00:00Z", "2500-06-01T12:00:00+05:00"}
+	for _, D := range [][]TEdge{D3, {{times[0], "a"}}, {{int64(-1<<63) + 1e12, "p"}, {times[1], "q"}, {int64(1<<63-1) - 1e12, "r"}}} {
+		var curs []*CurArg
+		curs = append(curs, nil, &CurArg{Kind: "emitted", T: D[0].T, Id: D[0].Id, S: emit(D[0])})
+		for _, t1 := range farTexts {
+			for _, t2 := range farTexts {
+				if t1 == "" && t2 == "" {
+					continue
+				}
+				bounds := func(r *TReq) {
+					if t1 != "" {
+						r.AtOrAfterText, r.AtOrAfter = t1, farBound(t1)
+					} else if R.Bool() {
+						r.AtOrAfter = i64(times[0])
+					}
+					if t2 != "" {
+						r.BeforeText, r.BeforeT = t2, farBound(t2)
+					} else if R.Bool() {
+						r.BeforeT = i64(times[2])
+					}
+				}
+				for _, cur := range curs {
+					for n := 0; n <= len(D)+1; n++ {
+						for _, fwd := range []bool{true, false} {
+							r := TReq{SelPI: true, SelTC: R.Chance(1, 4), Vars: R.Bool()}
+							bounds(&r)
+							if fwd {
+								r.First, r.After = ip(n), cur
+							} else {
+								r.Last, r.Before = ip(n), cur
+							}
+							h.add(Case{Kind: "served", D: D, Tie: "id", Async: hx.Pick(R, asyncs), Empty: hx.Pick(R, emptyNames), ReplyAs: replyAs(R), Seed: R.Uint64() >> 1, Req: &r})
+						}
+					}
+				}
+				var wr TReq
+				bounds(&wr)
+				h.check(Case{Kind: "walk", D: D, Tie: "id", Async: hx.Pick(R, asyncs), Seed: R.Uint64() >> 1, Walk: &TWalk{Forward: R.Bool(), N: 1, AtOrAfter: wr.AtOrAfter, BeforeT: wr.BeforeT, AtOrAfterText: wr.AtOrAfterText, BeforeText: wr.BeforeText}})
+			}
+		}
 	}
 
 	// ---- random larger data sets: many edges per timestamp, requests and walks
